@@ -87,6 +87,7 @@ kind_of_msg(const char *m)
         if (HAS("unable to map prefix")) return "NoPrefix";
         if (HAS("identity not found in module")) return "NotFound";
         if (HAS("identity not derived from")) return "NotDerived";
+        if (HAS("identity is disabled by if-feature")) return "Disabled";
         return "Other";
     }
     if (PFX("Invalid instance-identifier")) return HAS("\" value - syntax error") ? "Syntax" : (HAS("\" value - semantic error") ? "Semantic" : "Other");
@@ -298,7 +299,13 @@ render_identities(const char *graph, const char *leafmod, struct rctx *rc)
                 const char *dot = memchr(p, '.', n), *lt = memchr(p, '<', n);
                 if ((size_t)(dot - p) == strlen(mods[i]) && !strncmp(p, mods[i], dot - p)) {
                     const char *ne = lt ? lt : p + n;
-                    sb_add(&body, &bl, " identity %.*s {", (int)(ne - dot - 1), dot + 1);
+                    if (ne[-1] == '!') {
+                        /* disabled by if-feature (the feature `off` of the module is never enabled) */
+                        if (!body || !strstr(body, " feature off;")) sb_add(&body, &bl, " feature off;");
+                        sb_add(&body, &bl, " identity %.*s { if-feature off;", (int)(ne - dot - 2), dot + 1);
+                    } else {
+                        sb_add(&body, &bl, " identity %.*s {", (int)(ne - dot - 1), dot + 1);
+                    }
                     if (lt) {
                         const char *q = lt + 1;
                         while (q < p + n) {
@@ -879,7 +886,7 @@ main(void)
                 lyd_free_all(tree); free(doc);
             } else if (!strcmp(fmt, "schema") && t->idmods) {
                 static unsigned dcount; char *sch = NULL; size_t sl = 0; struct lys_module *m2 = NULL;
-                char *ms = strdup(t->idmods), *sv = NULL, *m; const char *ty = strstr(t->yangtype, "type identityref");
+                char *ms = strdup(t->idmods), *sv = NULL, *m; const char *ty = t->yangtype;     /* identityref, or a union with an identityref member */
                 sb_add(&sch, &sl, "module vtd%u { yang-version 1.1; namespace \"urn:vtd%u\"; prefix v;", dcount, dcount);
                 dcount++;
                 for (m = strtok_r(ms, " ", &sv); m; m = strtok_r(NULL, " ", &sv)) sb_add(&sch, &sl, " import %s { prefix p%s; }", m, m);
@@ -905,7 +912,8 @@ main(void)
                     if (prc) {
                         const struct ly_err_item *e = ly_err_last(ctx); const char *msg = e ? e->msg : NULL, *in;
                         /* the value error is embedded in the "Invalid default" message */
-                        if (msg && ((in = strstr(msg, "Invalid identityref")) || (in = strstr(msg, "Invalid empty identityref")) ||
+                        if (msg && ((in = strstr(msg, "Invalid union value")) || (in = strstr(msg, "Invalid identityref")) ||
+                                (in = strstr(msg, "Invalid empty identityref")) ||
                                 (in = strstr(msg, "Invalid non-")))) msg = in;
                         vp_reply(id, "err %s", kind_of_msg(msg));
                     } else {
